@@ -42,3 +42,8 @@ done
 git -C /repo checkout -- .
 for f in ${demofiles:-}; do rm -f /repo/$f; done
 git -C /repo status --short | head -3
+# leave no harness binary behind that was built from the patched tree
+(cd /verif && python3 -c "
+import sys; sys.path.insert(0, '/verif')
+from vlib import core
+core.build_harness()" >/dev/null 2>&1)
